@@ -11,6 +11,7 @@ OPS = {
     "I1": {"sql": "insert into t values (1,10),(2,20)"},
     "I2": {"sql": "insert into t values (3,30),(2,21)"},
     "D": {"sql": "delete from t where k = 2"},
+    "DA": {"sql": "delete from t"},            # every row: a later compaction produces no row-set, only DeleteDV/DeleteRowSet records
     "DT": {"sql": "drop table t"},
     "C": {"op": "compact"},
     "R": {"op": "reopen"},
@@ -33,6 +34,8 @@ def model(ops):
                 st = st + [(3, 30), (2, 21)]
             elif o == "D":
                 st = [r for r in st if r[0] != 2]
+            elif o == "DA":
+                st = []
     return st
 
 
@@ -41,7 +44,7 @@ def valid(h):
     for o in h:
         if o == "CT" and st is not None:
             return False
-        if o in ("I1", "I2", "D", "DT") and st is None:
+        if o in ("I1", "I2", "D", "DA", "DT") and st is None:
             return False
         if o == "CT":
             st = []
@@ -59,9 +62,12 @@ def histories(tier):
         for t in itertools.product(["I2", "D", "DT", "C", "R"], repeat=2):
             if valid(["CT", "I1"] + list(t)):
                 out.append(["CT", "I1"] + list(t))
+        # two fully deleted row-sets, compacted away, then reopened and written again (row-set ids are re-issued)
+        churn = ["CT", "I1", "DA", "I2", "DA"]
+        out += [churn + t for t in (["C"], ["C", "R"], ["C", "I1"], ["C", "R", "R", "I1"], ["R", "C"], ["DT"])]
     else:
-        prefixes = [[], ["CT", "I1"], ["CT", "I1", "I2", "D"], ["CT", "I1", "I2", "C"]]
-        tails = [list(t) for n in (1, 2, 3) for t in itertools.product(["CT", "I1", "I2", "D", "DT", "C", "R"], repeat=n)]
+        prefixes = [[], ["CT", "I1"], ["CT", "I1", "I2", "D"], ["CT", "I1", "I2", "C"], ["CT", "I1", "DA", "I2", "DA"], ["CT", "I1", "DA", "I2", "DA", "C", "R"]]
+        tails = [list(t) for n in (1, 2, 3) for t in itertools.product(["CT", "I1", "I2", "D", "DA", "DT", "C", "R"], repeat=n)]
     seen = set()
     for p in prefixes:
         for t in tails:
